@@ -20,6 +20,7 @@ inline Item planItem(size_t idx) {
 	x.opts.gen.maxCount = 1 + (int)((it + rest) % 4);
 	x.opts.gen.minCount = (rest % 3 == 1) ? 1 : 0;
 	x.opts.gen.boolBias = (int)((it + rest) % 3);
+	x.opts.gen.readerLimitStrings = true;
 	std::string t = x.type;
 	for (auto& c : t) if (c == ':') c = '_';
 	x.id = std::string(x.ver->n) + "." + t + "." + std::to_string(it);
